@@ -268,13 +268,52 @@ func verifyFieldGuard(p *Program, fn *ssa.Function, spec fieldFactSpec) (bool, s
 	gotLo, gotHi := !needLo, !needHi
 	var where []string
 	condWhy := ""
-	for _, b := range fn.Blocks {
+	// the guard may sit in a helper that only the establisher calls (helper extraction): the helper's call must
+	// then be unconditional in the establisher and its error returned
+	var blocks []*ssa.BasicBlock
+	helperOK := map[*ssa.Function]string{}
+	for _, cf := range cluster(fn) {
+		if cf != fn {
+			why := ""
+			for h := cf; h != fn && why == ""; {
+				site := uniqueCallSite(h)
+				if site == nil {
+					why = "helper " + shortFn(h) + " has several callers"
+					break
+				}
+				if w := guardConditionalOn(p, site.Parent(), site.Block(), spec); w != "" {
+					why = w
+				}
+				if spec.kind != "accerr" {
+					c, isCall := site.(*ssa.Call)
+					if !isCall {
+						why = "helper called in a go/defer statement"
+						break
+					}
+					for _, e := range errorValuesOfCall(c) {
+						if e == nil {
+							why = "the error of " + shortFn(h) + " is discarded"
+						} else if ok, w := errorReturnedWhenNonNil(e); !ok {
+							why = "the error of " + shortFn(h) + " is not returned: " + w
+						}
+					}
+				}
+				h = site.Parent()
+			}
+			helperOK[cf] = why
+		}
+		blocks = append(blocks, cf.Blocks...)
+	}
+	for _, b := range blocks {
 		ifi, ok := b.Instrs[len(b.Instrs)-1].(*ssa.If)
 		if !ok {
 			continue
 		}
 		bo, ok := ifi.Cond.(*ssa.BinOp)
 		if !ok {
+			continue
+		}
+		if b.Parent() != fn && helperOK[b.Parent()] != "" {
 			continue
 		}
 		var c int64
@@ -308,7 +347,7 @@ func verifyFieldGuard(p *Program, fn *ssa.Function, spec fieldFactSpec) (bool, s
 		}
 		// the guard must apply to every instance: it may only be conditional on loop
 		// conditions, on other validation branches, and on tests of the same field
-		if why := guardConditionalOn(p, fn, b, spec); why != "" {
+		if why := guardConditionalOn(p, b.Parent(), b, spec); why != "" {
 			condWhy = why
 			continue
 		}
